@@ -109,7 +109,7 @@ theorem invoke_congr (c : List Level) (run1 run2 : Env → List Node → Res)
       | none => simp [hm]
       | some m =>
         obtain ⟨kind, ps, kids⟩ := m
-        simp only [Option.bind_some, hm]
+        simp only [Option.bind_some, hm, finishCall_eq]
         split
         · rfl
         · apply h
@@ -149,7 +149,7 @@ theorem exec_congr (c : List Level) (D1 D2 : Dispatch) (href : D1.ref = D2.ref) 
       | block nm ln kids =>
         cases nm with
         | none =>
-          simp only [step]
+          simp only [step, finishCall_eq]
           exact ih env kids (fun a ha => hn (by simpa [namesN] using ha))
         | some b =>
           have hb : b ∈ usedNames c := hn (by simp [namesN])
